@@ -273,9 +273,15 @@ def mem2_newton(
         - np.pi
     )
 
+    # The width of an interval is positive irrespective of the ordering (anti-clockwise
+    # or clockwise) of the direction array.
     direction_increment = (
-        direction_increment_downward_difference + direction_increment_upward_difference
-    ) / 2
+        np.abs(
+            direction_increment_downward_difference
+            + direction_increment_upward_difference
+        )
+        / 2
+    )
 
     # Calculate the needed Fourier transform twiddle factors to calculate moments.
     twiddle_factors = np.empty((4, len(directions_radians)))
